@@ -96,6 +96,25 @@ TfeeEvent(e) ==
   /\ Chk("C16", "fails_only_without_solution", (~e.inclA.ok) => (AmtMax \prec (e.x ++ e.maxFee)))
 
 -----------------------------------------------------------------------------
+(* C20: the SDK's conversions return the program's values whenever the program succeeds and report
+   an error whenever the program rejects the input as overflowing *)
+SameOrBothFail(p, s) == IF p.ok THEN (s.ok /\ s.v \doteq p.v) ELSE ~s.ok
+SdkTicksEvent(e) == Chk("C20", "tick_price_conversions", \A i \in DOMAIN e.rows : \A j \in 2..5 : e.rows[i][j])
+SdkConvEvent(e) ==
+  /\ Chk("C20", "amount_delta_a", SameOrBothFail(e.progA, e.sdkA))
+  /\ Chk("C20", "amount_delta_b", SameOrBothFail(e.progB, e.sdkB))
+  \* the next-price functions are not among the functions the property lists on their own (the SDK's
+  \* range check is stricter than the program's); inside a swap they are covered by the quote
+  \* comparison.  Only "the program computes a value => the SDK, if it answers, gives the same" is kept.
+  /\ Chk("C20", "next_price_from_a", (e.progNextA.ok /\ e.sdkNextA.ok) => e.sdkNextA.v \doteq e.progNextA.v)
+  /\ Chk("C20", "next_price_from_b", (e.progNextB.ok /\ e.sdkNextB.ok) => e.sdkNextB.v \doteq e.progNextB.v)
+SdkEstEvent(e) ==
+  Chk("C20", "token_estimates_for_liquidity", IF e.prog.ok THEN (e.sdk.ok /\ e.sdk.a \doteq e.prog.a /\ e.sdk.b \doteq e.prog.b) ELSE ~e.sdk.ok)
+SdkSlipEvent(e) ==
+  /\ Chk("C20", "min_on_safe_side", e.min.ok => (e.min.v \preceq e.est /\ e.min.v \doteq MulDivFloor(e.est, 10000 - e.bps, 10000)))
+  /\ Chk("C20", "max_on_safe_side", e.max.ok => (e.est \preceq e.max.v /\ e.max.v \doteq MulDivCeil(e.est, 10000 + e.bps, 10000)))
+
+-----------------------------------------------------------------------------
 Init == l = 1 /\ TLCSet(7, <<"none", "none">>) /\ TLCSet(8, "none")
 Next ==
   /\ l <= Len(Rec)
@@ -107,6 +126,10 @@ Next ==
        [] e.k = "deltas" -> DeltasEvent(e)
        [] e.k = "maxliq" -> MaxLiqEvent(e)
        [] e.k = "tfee" -> TfeeEvent(e)
+       [] e.k = "sdk_ticks" -> SdkTicksEvent(e)
+       [] e.k = "sdk_conv" -> SdkConvEvent(e)
+       [] e.k = "sdk_est" -> SdkEstEvent(e)
+       [] e.k = "sdk_slip" -> SdkSlipEvent(e)
        [] e.k = "view" -> ViewEvent(e)
        [] e.k = "usable" -> UsableEvent(e)
        [] OTHER -> FALSE
